@@ -303,26 +303,88 @@ RULES = {
     "R3": [("|_|", "|_v|"), ("|()|", "|_u: ()|")],
     # R6: consts inside verus! need the (implied) 'static lifetime spelled out
     "R6": [(":&str=", ":&'static str=")],
+    # R8: `e.split(c).collect()` -> shim method `e.vsplit_collect(c)` ($C = one literal): vstd's
+    #     `Iterator::collect` contract is not applied for core::str::Split, the shim states the result of both calls
+    "R8": [(".split($C).collect()", ".vsplit_collect($C)")],
     # R4: fn-pointer alias becomes an opaque shim
     "R4": [("FormatFunction", "VFormatFn")],
 }
 
 
 def apply_rule(sf, a, b, rule, edits):
-    """replace every occurrence of the token sequence inside [a,b); returns hit count"""
+    """replace every occurrence of the token sequence inside [a,b); returns hit count.
+    `$X` in a pattern matches one identifier token, `$C` one literal token; both may be used in the replacement."""
     hits = 0
     toks = sf.toks
     sigidx = [k for k in range(a, b) if toks[k].kind not in TRIVIA]
     for pat, rep in RULES[rule]:
-        ptoks = [t.text for t in lex(pat) if t.kind not in TRIVIA]
+        ptoks = []
+        raw = [t for t in lex(pat) if t.kind not in TRIVIA]
+        q = 0
+        while q < len(raw):
+            if raw[q].text == "$" and q + 1 < len(raw):
+                ptoks.append("$" + raw[q + 1].text)
+                q += 2
+            else:
+                ptoks.append(raw[q].text)
+                q += 1
+        has_e = bool(ptoks) and ptoks[0] == "$E"
+        if has_e:
+            ptoks = ptoks[1:]
         n = len(ptoks)
         p = 0
         while p + n <= len(sigidx):
-            if [toks[sigidx[p + q]].text for q in range(n)] == ptoks:
-                i = sigidx[p]
+            binds = {}
+            if has_e:
+                binds["$E"] = None
+            ok = True
+            p_start = p
+            for q in range(n):
+                t = toks[sigidx[p + q]]
+                pt = ptoks[q]
+                if pt == "$X":
+                    if t.kind != "ident":
+                        ok = False
+                        break
+                    binds["$X"] = t.text
+                elif pt == "$C":
+                    if t.kind not in ("char", "str", "num"):
+                        ok = False
+                        break
+                    binds["$C"] = t.text
+                elif t.text != pt:
+                    ok = False
+                    break
+            if ok and "$E" in binds:
+                # receiver = maximal postfix chain to the left: idents, `.`, `::`, `?`, bracket groups
+                e_end = sigidx[p]          # token index of the `.` after the receiver
+                q = p - 1
+                while q >= 0:
+                    t = toks[sigidx[q]]
+                    if t.text in (")", "]") and sigidx[q] in sf.br:
+                        o = sf.br[sigidx[q]]
+                        while q >= 0 and sigidx[q] > o:
+                            q -= 1
+                        q -= 1
+                        continue
+                    if t.kind in ("ident", "num", "str", "char") or t.text in (".", ":", "?"):
+                        q -= 1
+                        continue
+                    break
+                q += 1
+                if q >= p:
+                    ok = False
+                else:
+                    binds["$E"] = sf.text[toks[sigidx[q]].start:toks[sigidx[p - 1]].end]
+                    p_start = q
+            if ok:
+                i = sigidx[p_start] if "$E" in binds else sigidx[p]
                 j = sigidx[p + n - 1] + 1
+                r = rep
+                for k2, v2 in binds.items():
+                    r = r.replace(k2, v2)
                 try:
-                    edits.replace(i, j, [Piece(rep)])
+                    edits.replace(i, j, [Piece(r)])
                     hits += 1
                 except ExtractError:
                     pass
@@ -888,8 +950,13 @@ def expand(template_path, repo_root, verif_root, registry, _depth=0):
         line = lines[i]
         m = _dir_re.match(line)
         if not m:
-            if line.lstrip().startswith("//@") and not line.lstrip().startswith("//@label"):
+            if line.lstrip().startswith("//@") and not line.lstrip().startswith("//@label") and not line.lstrip().startswith("//@lemma"):
                 raise ExtractError("%s:%d: stray directive line: %s" % (rel_t, i + 1, line.strip()))
+            mlem = re.search(r"proof fn (\w+).*//@lemma\s+(\S+)", line)
+            if mlem:
+                registry.append({"mode": "lemma", "file": rel_t, "item": mlem.group(1), "name": mlem.group(1), "line": i + 1,
+                                 "rules": {}, "clauses": [], "canary": False, "props": mlem.group(2).split(","),
+                                 "tline": "%s:%d" % (rel_t, i + 1)})
             ml = re.search(r"//@label\s+(\S+)\s*(\S*)", line)
             if ml:
                 props = [x for x in ml.group(2).split(",") if x]
